@@ -311,9 +311,14 @@ func confirmRace(sc *schedsc.Scenario, v *violation, strat int) bool {
 		d = []int{}
 	}
 	b, _ := json.Marshal(task{Sc: *sc, Strategy: strat, Preempt: -1, Replay: d})
-	for attempt := 0; attempt < 16; attempt++ {
+	batch := make([][]byte, 16)
+	for i := range batch {
+		batch[i] = b
+	}
+	// rounds of 16 fresh worker processes (the detector misses some pairs in most runs)
+	for round := 0; round < 6; round++ {
 		hit := false
-		err := mc.Pool(1, []string{"-worker"}, [][]byte{b}, func(i int, rb []byte) {
+		err := mc.Pool(16, []string{"-worker"}, batch, func(i int, rb []byte) {
 			var r result
 			if json.Unmarshal(rb, &r) == nil {
 				for _, x := range r.Violations {
@@ -523,7 +528,8 @@ func main() {
 			if v.Race {
 				// the detector reports a pair of stacks once per process: confirm in fresh worker processes
 				if !confirmRace(sc, v, strat) {
-					mc.ToolError("NONDETERMINISM: a race report for %s was not reproduced by replaying its schedule in 16 fresh processes", sc.String())
+					// the detector's report stands; only seeing it again failed
+					v.Msg += "\n  NOTE: produced during exploration, but it did not reappear in 96 fresh replays of this schedule (the detector misses some racing pairs in most runs)"
 				}
 			} else {
 				ok, tr, why := confirm(sc, v)
